@@ -168,6 +168,104 @@ def stale_width_probe(rng, algo, mode=None):
             "costs": None, "budget": None, "auer_empirical": False, "no_shrink": True}
 
 
+def later_facet_probe(rng, algo):
+    """cones with more facets than objectives (four3, six3): design 1 exceeds design 0 on the first m facets but NOT
+    on one of the later facets, both regions tiny and centred on the truth (valid): nothing may be eliminated or
+    crash because of facets m+1..K; a second pair differs only on an early facet as a control"""
+    import numpy as _np
+    cone = rng.choice(["four3", "six3"])
+    W = gen.CONES_3D[cone][0]; Wn = _np.array(W, dtype=float); m = 3
+    while True:
+        d = _np.array([rng.randint(-4, 4) for _ in range(m)], dtype=float)
+        f = Wn @ d
+        if (f[:m] > 0).all() and (f[m:] < 0).any():
+            break
+    scale = rng.choice([0.25, 0.5, 1.0])
+    Y = [[0.0, 0.0, 0.0], [float(x) * scale for x in d], [-6.0, -6.0, -8.0]]
+    K = len(Y)
+    X = [[(k % 4) / 4.0, (k // 4) / 4.0] for k in range(K)]
+    R = 6
+    means = [[list(y) for y in Y] for _ in range(R + 1)]
+    hws = [[[2.0 ** (-(r + 4)) * scale] * m for _ in range(K)] for r in range(R + 1)]
+    return {"algo": algo, "cone": cone, "W": W, "X": X, "Y": Y, "eps": rng.choice([0.0625, 0.125]) * scale, "valid_by_construction": True,
+            "style": "later-facet-probe", "means": means, "hw": hws, "batch": 1, "contraction": 1.0, "costs": None, "budget": None,
+            "auer_empirical": False, "rho": [0.0] * K if algrun.REGION[algo] == "ell" else None}
+
+
+def correlated_longaxis(rng, algo="PaVeBaGP-DE"):
+    """valid history with strongly correlated ellipsoids (rho = 0.9): design q is dominated by design p far beyond eps,
+    but the displayed centres are off along the LONG axis of the ellipsoids (p's centre below its truth, q's centre
+    above) by 90-97% of the long semi-axis, so only the true orientation of the regions keeps 'p may still cover q'"""
+    import math
+    m = 2
+    eps = rng.choice([0.0625, 0.125])
+    g = rng.choice([1.0, 1.5])
+    rho = rng.choice([0.875, 0.9375])
+    frac = rng.choice([0.90625, 0.96875])
+    Y = [[0.0, 0.0], [-g, -g], [6.0, -6.0]]
+    K = 3
+    X = [[(k % 4) / 4.0, (k // 4) / 4.0] for k in range(K)]
+    R = 8
+    means, hws = [], []
+    for r in range(R + 1):
+        h = g * 2.0 ** (-max(r - 1, 0))          # rounds are 1-based: the widest regions are displayed in round 1
+        off = frac * h * math.sqrt(1 + rho) / math.sqrt(2)
+        off = math.floor(off * 2 ** 20) / 2 ** 20
+        means.append([[-off, -off], [-g + off, -g + off], list(Y[2])])
+        hws.append([[h, h]] * K)
+    return {"algo": algo, "cone": "orthant2", "W": gen.CONES_2D["orthant2"][0], "X": X, "Y": Y, "eps": eps, "valid_by_construction": True,
+            "style": "correlated-long-axis", "means": means, "hw": hws, "batch": 1, "contraction": 1.0, "costs": None, "budget": None,
+            "auer_empirical": False, "rho": [rho, rho, 0.0]}
+
+
+def _spec_from_boxes(algo, Y, rounds, eps, style, valid):
+    """rounds: list over rounds of list over designs of (lower, upper)"""
+    K = len(Y); m = len(Y[0])
+    means = [[[(l + u) / 2 for l, u in zip(lo, up)] for lo, up in rnd] for rnd in rounds]
+    hws = [[[(u - l) / 2 for l, u in zip(lo, up)] for lo, up in rnd] for rnd in rounds]
+    X = [[(k % 4) / 4.0, (k // 4) / 4.0] for k in range(K)]
+    cone = "orthant2" if m == 2 else "orthant3"
+    return {"algo": algo, "cone": cone, "W": (gen.CONES_2D if m == 2 else gen.CONES_3D)[cone][0], "X": X, "Y": Y, "eps": eps,
+            "valid_by_construction": valid, "style": style, "means": means, "hw": hws, "batch": 1, "contraction": 1.0, "costs": None,
+            "budget": None, "auer_empirical": False, "no_shrink": True}
+
+
+def epal_directed(kind, algo="EpsilonPAL", variant=0):
+    """hand-built region histories for eps-PAL / VOGP (componentwise order), all values dyadic:
+    'stale-witness'   : in one round x is eps-discarded by the tight design p while x is the ONLY design whose region could
+                        still exceed the wide candidate c by eps -> c must enter P in that round (witnesses = designs still active)
+    'nonpess-coverer' : (valid history) p enters P in round 0 while x, which p dominates far beyond eps, is still uncertain in
+                        one objective; in round 1 p's rectangle widens downwards so that p is no longer pessimistic — p must
+                        still be tried as a coverer of x (covering depends on the witness's upper corner)
+    'tie'             : two designs with identical rectangles (each pessimistically dominates the other), one design above
+                        and one elsewhere: neither of the twins belongs to the pessimistic set"""
+    e = 0.125
+    sh = [0.0, 0.25, -0.5][variant % 3]
+    def B(lo, up):
+        return ([x + sh for x in lo], [x + sh for x in up])
+    if kind == "stale-witness":
+        p = B([1.0, 1.0], [1.015625, 1.015625])
+        x = B([0.0, 0.0], [1.109375, 1.109375])            # upper <= p.lower + eps: discarded; lower <= p.lower: not pessimistic
+        c = B([0.9375, 0.5], [3.0, 3.0])                   # "covered by j" = some point of j exceeds some point of c by eps:
+                                                           # lower[0] > p.upper[0] - eps (p cannot), lower <= x.upper - eps (x can)
+        far = B([-6.0, -6.0], [-5.0, -5.0])
+        Y = [[1.0 + sh, 1.0 + sh], [0.5 + sh, 0.5 + sh], [2.0 + sh, 2.0 + sh], [-5.5 + sh, -5.5 + sh]]
+        return _spec_from_boxes(algo, Y, [[p, x, c, far]] * 3, e, "epal-stale-witness", False)
+    if kind == "nonpess-coverer":
+        p0 = B([0.984375, 0.984375], [1.015625, 1.015625])
+        x0 = B([0.0, 0.0], [0.5, 3.0])
+        p1 = B([-2.0, -2.0], [1.015625, 1.015625])
+        Y = [[1.0 + sh, 1.0 + sh], [0.25 + sh, 0.5 + sh]]
+        return _spec_from_boxes(algo, Y, [[p0, x0], [p1, x0], [p1, x0], [p0, B([0.125, 0.375], [0.375, 0.625])]], e, "epal-nonpess-coverer", True)
+    if kind == "tie":
+        a = B([0.0, 0.0], [1.0, 1.0])
+        c = B([2.0, -3.0], [2.5, -2.5])
+        d = B([-3.0, 2.0], [-2.5, 2.5])
+        Y = [[0.5 + sh, 0.5 + sh], [0.5 + sh, 0.5 + sh], [2.25 + sh, -2.75 + sh], [-2.75 + sh, 2.25 + sh]]
+        return _spec_from_boxes(algo, Y, [[a, a, c, d]] * 3, e, "epal-tie", False)
+    raise ValueError(kind)
+
+
 def cover_adversarial(rng, algo):
     """valid history for VOGP with a cone wider than the orthant: design 1 dominates design 0 beyond the
     eps-slack while being WORSE in one objective; design 0 stays very uncertain in one objective for the
